@@ -74,3 +74,49 @@ if os.environ.get('SHOW'):
         if d < int(os.environ.get('DEPTH','2')):
             for c in ir.children(n): sh(ir.node(c), d+1)
     sh(n)
+if os.environ.get('DIFF3'):
+    io, so = paths[0].value
+    xs = []; harness.value_nodes(io[1], xs); ys = []; harness.value_nodes(so[1], ys)
+    ui = set(n.id for n in ir.uf_apps(xs)); us = set(n.id for n in ir.uf_apps(ys))
+    oi, os_ = sorted(ui - us), sorted(us - ui)
+    print('uf apps impl-only %d spec-only %d common %d' % (len(oi), len(os_), len(ui & us)))
+    def leafargs(n):
+        return [ir.describe(ir.node(i), int(os.environ.get('DEPTH', '3'))) for i in n.a[1:]]
+    if oi: print('first impl-only', ir.node(oi[0]).a[0], leafargs(ir.node(oi[0])))
+    if os_: print('first spec-only', ir.node(os_[0]).a[0], leafargs(ir.node(os_[0])))
+def firstdiff(x, y, d=0, maxd=40):
+    pad = '  ' * d
+    if x is y: return False
+    if d > maxd: print(pad, '...'); return True
+    if x.k != y.k or x.w != y.w:
+        print(pad, 'KIND/WIDTH', ir.describe(x, 3), '|||', ir.describe(y, 3)); return True
+    if x.k == 'cat':
+        if len(x.a) != len(y.a) or any((a[0] == 'c') != (b[0] == 'c') or a[1:] != b[1:] and a[0] != 'c' for a, b in zip(x.a, y.a)):
+            print(pad, 'CAT-SHAPE', [(s if s[0]=='c' else (ir.node(s[0]).k+str(ir.node(s[0]).w), s[1], s[2])) for s in x.a][:8], '|||', [(s if s[0]=='c' else (ir.node(s[0]).k+str(ir.node(s[0]).w), s[1], s[2])) for s in y.a][:8]); return True
+        for a, b in zip(x.a, y.a):
+            if a != b:
+                if a[0] == 'c': print(pad, 'CAT-CONST', a, b); return True
+                print(pad, 'cat seg', a[1:], '->'); return firstdiff(ir.node(a[0]), ir.node(b[0]), d + 1)
+    if x.k in ('add', 'xor', 'and', 'or'):
+        cx = dict(x.a[0]) if x.k == 'add' else {i: 1 for i in x.a[0]}
+        cy = dict(y.a[0]) if y.k == 'add' else {i: 1 for i in y.a[0]}
+        if x.a[1] != y.a[1]: print(pad, x.k, 'CONST differs', hex(x.a[1]), hex(y.a[1]))
+        ox = sorted(i for i in cx if cy.get(i) != cx[i]); oy = sorted(i for i in cy if cx.get(i) != cy[i])
+        print(pad, x.k, x.w, 'terms', len(cx), len(cy), 'only-x', len(ox), 'only-y', len(oy))
+        if len(ox) != len(oy) or not ox:
+            for i in ox[:4]: print(pad, '  x:', cx[i], ir.describe(ir.node(i), 3))
+            for i in oy[:4]: print(pad, '  y:', cy[i], ir.describe(ir.node(i), 3))
+            return True
+        return firstdiff(ir.node(ox[0]), ir.node(oy[0]), d + 1)
+    cxs, cys = ir.children(x), ir.children(y)
+    if x.k == 'uf' and x.a[0] != y.a[0]: print(pad, 'UF name', x.a[0], y.a[0]); return True
+    for i, j in zip(cxs, cys):
+        if i != j:
+            print(pad, x.k, x.a[0] if x.k == 'uf' else '', 'child ->'); return firstdiff(ir.node(i), ir.node(j), d + 1)
+    print(pad, 'attrs differ', x, y); return True
+if os.environ.get('DIFF4'):
+    io, so = paths[0].value
+    xs = []; harness.value_nodes(io[1], xs); ys = []; harness.value_nodes(so[1], ys)
+    for a, b in zip(xs, ys):
+        if a is not b:
+            firstdiff(a, b); break
